@@ -162,6 +162,13 @@ def eval_small(t, val, atoms=None):
             return r & m, w
         if t.op == '==':
             return int(vs[0][0] == vs[1][0]), w
+        if t.op == 'parity' and len(vs) == 1:
+            return 1 - bin(vs[0][0] & 0xFF).count('1') % 2, 1
+        if t.op == '*':
+            r = 1
+            for v, _ in vs:
+                r *= v
+            return r & m, w
         raise Refuse('operator %s' % t.op)
     if k == 'Slice':
         v, w = eval_small(t.arg, val, atoms)
